@@ -169,6 +169,7 @@ func (c *Ctx) mapxRun() *simpleVerdict {
 					continue
 				}
 				v.runs++
+				noteSample("MAP.model/sequences", strings.Join(hist, "; "))
 				for _, p := range probes {
 					r, out := m.Call(c.lookupMethod(mt, "Lookup"), obj, p)
 					if out.kind == "panic" {
@@ -358,6 +359,9 @@ func (c *Ctx) symxRun() *simpleVerdict {
 				for _, in := range inputs {
 					m.steps = 0
 					v.runs++
+					if i%50 == 0 {
+						noteSample("SYM.model/sets", fmt.Sprintf("%s on input %q", strings.Join(regs, "; "), in))
+					}
 					sc, out := m.Call(newScanner, in)
 					if out.kind != "ok" {
 						v.undec = "NewStringScanner: " + out.why
